@@ -75,6 +75,12 @@ CHECKS = {
          "tree and error list of the second parse on the reused HTMLParser equal those of a new parser. HTMLSerializer: 7 x 7 documents, first serialize() abandoned after 0..12 chunks or aborted by a strict SerializeError, then render() equals a new serializer's (output and errors).",
     note="NOT APPLICABLE dimension: thread interleavings (no scheduler model in CrossHair; nothing claimed about concurrency). Abort points are the first recorded error and source failures after 1 / 2 chunks; histories are length 2. " + NOTE_COMMON,
     design="§3 C12"),
+ "C10": dict(
+    technique="bounded symbolic execution (CrossHair/z3): the real parse -> sanitize -> serialize -> re-parse pipeline on inputs composed by symbolic index from mutation-XSS shaped pieces with symbolic options, re-parsed tree checked against the sanitizer's allow-lists; composition with C09 and C08",
+    text="For every input composed of a fragment container, two context openers (32: foreign content, integration points, raw-text / RCDATA elements, noscript, tables, select, template, plaintext ...; quick: 32 x 3, thorough: 32 x 16 in 3 containers) and one of 42 payloads (attribute-value breakouts of raw-text elements, comments, CDATA, foreign-content breakouts, obfuscated javascript: URLs, backticks, NUL ...), with optional-tag omission, quoting mode, scripting of both parses and the re-parse mode (same container / div / document) symbolic: "
+         "every element, attribute, URL scheme (browser rule R6), data: content type and style value of the RE-PARSED tree is on the sanitizer's allow-lists and no comment reappears. Plus the concrete lemma that no allow-listed element is written raw but parsed as data or vice versa.",
+    note="Inputs are instances of the piece grammar only; one listed known finding (namespace confusion after an escaped integration point) is the single problem class ignored. " + NOTE_COMMON,
+    design="§3 C10"),
  "C02": dict(
     technique="bounded symbolic execution (CrossHair/z3) of the real tokenizer state methods from catalogue pre-states on a symbolic continuation of arbitrary Unicode characters, differentially against an independent transcription of the WHATWG tokenizer (R1)",
     text="For every state method of the live HTMLTokenizer class (catalogue rebuilt from /repo at check time: 119 pre-states over 7 configurations = 5 start states x last start tag x CDATA allowed/not) the real tokenizer is run from that pre-state on EVERY string of <= 2 (quick) / 3 (thorough) Unicode characters followed by end of input, "
